@@ -188,7 +188,8 @@ def finish(pid, tier, seed, results, level, technique, assumptions, t0, extra_co
     """Classify results, replay counterexamples, print verdict lines, write evidence, return exit code.
     prop_filter(v) -> bool: whether a violation record belongs to this property (harness messages are tagged)."""
     known, fixed = load_known(pid)
-    rdir = os.path.join(VERIF, 'replays', pid); os.makedirs(rdir, exist_ok=True)
+    OUT = os.environ.get('VERIF_OUT', VERIF)   # seeded-change runs redirect evidence/replays so the registered evidence is untouched
+    rdir = os.path.join(OUT, 'replays', pid); os.makedirs(rdir, exist_ok=True)
     nviol = 0; ninc = 0; lines = []; foreign = 0; unrepro = []
     known_hits = {}
     tot = dict(paths=0, queries=0, qtime=0.0, steps=0, forks=0, checks=0)
@@ -246,8 +247,8 @@ def finish(pid, tier, seed, results, level, technique, assumptions, t0, extra_co
     if extra_cov: cov.update(extra_cov)
     ev = dict(property_id=pid, tier=tier, seed=seed, level=level, coverage=cov, assumptions=assumptions, wall_s=round(time.time() - t0, 1), violations=nviol,
               technique=technique)
-    os.makedirs(os.path.join(VERIF, 'evidence'), exist_ok=True)
-    json.dump(ev, open(os.path.join(VERIF, 'evidence', pid + '.json'), 'w'), indent=1, default=str)
+    os.makedirs(os.path.join(OUT, 'evidence'), exist_ok=True)
+    json.dump(ev, open(os.path.join(OUT, 'evidence', pid + '.json'), 'w'), indent=1, default=str)
     if nviol: return 1
     if ninc:
         print('check %s: %d job(s) without a verdict (engine limit / timeout) -- reported as inconclusive, exit 2' % (pid, ninc))
